@@ -187,6 +187,10 @@ def make_cfg(seed, i):
                 up["restarts.increase_npt_amt"] = 2
             cfg["args"]["maxfun"] = int(gen.pick(rng, [30, 45]))
             cfg["args"]["rhoend"] = float(0.3 * margin * 10.0 ** rng.uniform(-1.5, -0.5))
+    g2 = np.random.default_rng([int(seed), NUM, int(i), 7])
+    if g2.random() < 0.3:
+        # calling forms: in-place user projectors above all (the routine must own every vector it hands to a projector)
+        cfg["_forms"] = sorted(set(["proj_inplace"] + [f for f in gen.sample_forms(g2) if f != "extra_args"]))
     return cfg
 
 
@@ -272,7 +276,12 @@ def run_case(case):
         if rec["sweeps"] < rec["max_iter"]:
             st["evaluations_from_converged_projection"] = st.get("evaluations_from_converged_projection", 0) + 1
             lim = np.sqrt(rec["p"] * rec["tol"]) * (1 + 1e-9)
-            dist = max(float(np.linalg.norm(x - q(x))) for q in rec["P"])
+            # judged with the harness's own projectors for the described sets (user sets, then the bound box); the callables of the
+            # logged call are code under test and may be in-place ones (they would overwrite the recorded point)
+            Pown = [gen.make_projection(s_) for s_ in cfg["proj"]] + [lambda w: np.minimum(np.maximum(w, np.where(np.isfinite(b.lo), b.lo, -1e20)),
+                                                                                       np.where(np.isfinite(b.hi), b.hi, 1e20))]
+            Pj = Pown if rec["p"] == len(Pown) else [(lambda w, q_=q_: q_(np.array(w, copy=True))) for q_ in rec["P"]]
+            dist = max(float(np.linalg.norm(x - q(x))) for q in Pj)
             if dist > lim and len(viol) < 6:
                 viol.append(V("evaluation-infeasible-beyond-dykstra-tolerance", "call %d: %.3g from a set although its projection call stopped by rule "
                               "after %d sweeps (sqrt(p*tol) = %.3g)" % (k, dist, rec["sweeps"], lim), x=x, dist=dist, p=rec["p"], tol=rec["tol"]))
